@@ -581,6 +581,12 @@ func genLoopMagnet(r *Rng, idx int, tier string, step func(op string) string) {
 	}
 	isize := atoi(obsKV(o)["isize"])
 	step("start")
+	// sometimes the allocation that follows the metadata fails: the torrent stops with an error while the
+	// peers of the metadata phase are still connected (info known, nothing allocated, no piece picker)
+	failAlloc := !seeded && r.Chance(12)
+	if failAlloc {
+		step("gate kind=failopen on=1")
+	}
 	type mp struct {
 		k       int
 		kind    string // honest | liar | sizeliar | rejecter | mute
@@ -728,6 +734,15 @@ func genLoopMagnet(r *Rng, idx int, tier string, step func(op string) string) {
 		}
 	}
 	do("obs metaphase=done")
+	if failAlloc {
+		do("gate kind=failopen on=0")
+		if info(last) && obsKV(last)["st"] == "Stopped" {
+			for _, p := range peers {
+				p.closed = true
+			}
+			do("start")
+		}
+	}
 	if st := obsKV(last)["st"]; st == "Verifying" || st == "Allocating" {
 		// messages from the connected peers while allocation / verification is held
 		for s := 0; s < r.Range(2, 6); s++ {
